@@ -11,8 +11,8 @@ import (
 )
 
 func init() {
-	Register(&Scenario{Prop: "C12", Name: "malformed-messages", Run: scenC12, Weight: 1,
-		Rule: "honest writer W and receiver R sharing 1-2 databases, and a hostile peer that is present on the database topics and on the pairwise direct channel with R; W writes, real announcements are captured from the wire; then 3-10 (thorough 3-24) hostile payloads, each from one generator class {random bytes, JSON with heads null / [] / [null] / ill-typed / empty objects, a real head with one of identity, clock, hash, key, sig, next, id, payload removed or nulled, byte flip / delete / splice / truncate / duplicate of a captured real message, huge JSON nesting, wrong address field} sent on the database topic or on the direct channel; after each payload: the worker process is alive, every entry in R's logs is one an honest writer wrote and R's views equal the replay of its logs; finally W writes to every database and each new entry must reach R within 90 virtual seconds; non-trivial = >=3 payloads from >=3 classes over both routes"})
+	Register(&Scenario{Prop: "C12", Name: "malformed-messages", Run: scenC12, SoftParks: true, Weight: 1,
+		Rule: "honest writer W and receiver R sharing 1-2 databases, and a hostile peer that is present on the database topics and on the pairwise direct channel with R; W writes, real announcements are captured from the wire; then 3-10 (thorough 3-24) hostile payloads, each from one generator class {random bytes, JSON with heads null / [] / [null] / ill-typed / empty objects, a real head with one of identity, clock, hash, key, sig, next, id, payload removed or nulled, byte flip / delete / splice / truncate / duplicate of a captured real message, huge JSON nesting, wrong address field} sent on the database topic or on the direct channel; one payload in three is followed by a race: W writes and a corrupted twin of its fresh announcement (same claimed hash) is delivered to R in the same quantum as the real one, whose entry must still reach R before any later write; after each payload: the worker process is alive, every entry in R's logs is one an honest writer wrote and R's views equal the replay of its logs; finally W writes to every database and each new entry must reach R within 90 virtual seconds; non-trivial = >=3 payloads from >=3 classes over both routes"})
 }
 
 func init() {
@@ -95,6 +95,13 @@ func scenC12(k *K) {
 		adv.Engage(peers[1], d.r)
 	}
 	check := func(where string) {
+		// whatever W's own logs hold was written by the honest writer (a write may have been
+		// announced and replicated before the harness got to record it)
+		for _, d := range dbs {
+			for _, e := range LogValues(d.w) {
+				honest[e.GetHash().String()] = true
+			}
+		}
 		for _, d := range dbs {
 			for _, e := range LogValues(d.r) {
 				if !honest[e.GetHash().String()] {
@@ -136,6 +143,9 @@ func scenC12(k *K) {
 		if k.C.Chance(1, 4) {
 			write(d.w, peers[0].Node.Idx)
 		}
+		if k.C.Chance(1, 3) {
+			c12Twin(k, adv, peers, d.addr, d.w, d.r, honest)
+		}
 	}
 	k.Settle(30*time.Second, 1500, nil)
 	check("after-payloads")
@@ -161,6 +171,86 @@ func scenC12(k *K) {
 	k.Notes["nontrivial"] = n >= 3 && len(classes) >= 3 && len(routes) == 2
 	for _, p := range peers {
 		k.StopPeer(p)
+	}
+}
+
+// c12Twin: W writes; before its announcement is delivered the hostile peer sends a corrupted
+// twin of it (same claimed hash, one payload byte changed) on the topic or on the direct
+// channel; both reach R in the same quantum, so that their handlers run concurrently. The
+// twin must be discarded and the real entry must still get to R - before any later write
+// could bring it along as an ancestor.
+func c12Twin(k *K, adv *Adversary, peers []*Peer, addr string, w, r iface.Store, honest map[string]bool) {
+	wIdx, rIdx := peers[0].Node.Idx, peers[1].Node.Idx
+	val := fmt.Sprintf("twin%d", k.W.step)
+	op := k.Go(wIdx, "write "+val, func() (interface{}, error) {
+		ctx, cancel := OpCtx(time.Minute)
+		defer cancel()
+		return c09Write(ctx, w, val)
+	})
+	k.Wait()
+	if !k.IsDone(op) || op.Err != nil {
+		return
+	}
+	for _, e := range LogValues(w) {
+		honest[e.GetHash().String()] = true
+	}
+	var real []byte
+	k.W.mu.Lock()
+	for _, p := range k.W.pending {
+		if p.kind == pkMsg && p.src == wIdx && p.dst == rIdx && p.topic == addr {
+			real = append([]byte(nil), p.data...)
+		}
+	}
+	k.W.mu.Unlock()
+	if real == nil {
+		return
+	}
+	var msg map[string]interface{}
+	if err := json.Unmarshal(real, &msg); err != nil {
+		return
+	}
+	heads, _ := msg["heads"].([]interface{})
+	if len(heads) == 0 {
+		return
+	}
+	h, _ := heads[0].(map[string]interface{})
+	pl, _ := h["payload"].(string)
+	if len(pl) < 4 {
+		return
+	}
+	i := k.C.Intn(len(pl))
+	c := byte('A')
+	if pl[i] == c {
+		c = 'B'
+	}
+	h["payload"] = pl[:i] + string(c) + pl[i+1:]
+	twin, _ := json.Marshal(msg)
+	route := []string{"topic", "direct"}[k.C.Intn(2)]
+	copies := k.C.Range(1, 2)
+	for j := 0; j < copies; j++ {
+		if route == "topic" {
+			adv.PublishRaw(addr, twin)
+		} else {
+			adv.PublishRaw(PairTopic(adv.Node, peers[1].Node), twin)
+		}
+	}
+	k.W.Stat("malformed:twin-of-fresh-announcement")
+	saved := k.F
+	k.F = FaultCfg{Burst: 1}
+	k.Step()
+	k.F = saved
+	ok := false
+	for j := 0; j < 400 && !ok; j++ {
+		k.Step()
+		ok = strings.Contains(strings.Join(LogNames(r), " "), val)
+	}
+	if !ok {
+		k.Settle(90*time.Second, 2000, nil)
+		ok = strings.Contains(strings.Join(LogNames(r), " "), val)
+	}
+	if !ok {
+		rs, _ := ReplStats(r)
+		k.Failf("C12/valid-message-lost-next-to-malformed", "W's entry %s on %s, announced while a corrupted copy of the same announcement arrived via %s, did not reach R within the liveness budget; replicator %+v pending=%v", val, short(addr), route, rs, k.PendingDesc())
 	}
 }
 
